@@ -35,6 +35,8 @@ pub trait DynMap {
     fn sync_data(&mut self) -> io::Result<()>;
     fn read_fill_buffer(&mut self) -> io::Result<()>;
     fn bulk_put(&mut self, pairs: &[(&[u8], &[u8])]) -> io::Result<()>;
+    /// the iterator oracle of C04 (some flavours) against the model; a complaint or None
+    fn iter_check(&mut self, model: &BTreeMap<Vec<u8>, Vec<u8>>) -> Option<String>;
     fn clone_box(&self) -> Box<dyn DynMap>;
     fn items(&mut self) -> Vec<(Vec<u8>, Vec<u8>)>;
     fn partial_iter(&mut self, steps: usize) -> Box<dyn std::any::Any>;
@@ -73,6 +75,20 @@ impl<T: Kt> DynMap for FileDbMap<T> {
     }
     fn bulk_put(&mut self, pairs: &[(&[u8], &[u8])]) -> io::Result<()> {
         DbXxx::bulk_put(self, pairs)
+    }
+    fn iter_check(&mut self, model: &BTreeMap<Vec<u8>, Vec<u8>>) -> Option<String> {
+        for f in [0usize, 2, 3, 4, 7] {
+            match crate::engine_a::run_flavour(self, f, model.len()) {
+                Out::Ok(Ok(items)) => {
+                    if let Some(bad) = crate::engine_a::check_flavour(f, &items, model) {
+                        return Some(format!("{} {}", crate::engine_a::ITER_FLAVOURS[f], bad));
+                    }
+                }
+                Out::Ok(Err(bad)) => return Some(format!("{}: {}", crate::engine_a::ITER_FLAVOURS[f], bad)),
+                o => return Some(format!("{} {}", crate::engine_a::ITER_FLAVOURS[f], o.failed().unwrap_or_default())),
+            }
+        }
+        None
     }
     fn clone_box(&self) -> Box<dyn DynMap> {
         Box::new(self.clone())
@@ -137,6 +153,8 @@ pub const L_ISEMPTY: u8 = 14;
 pub const L_FILL: u8 = 15;
 /// bulk_put of every key of the map (value index = letter.val rotated by the key index)
 pub const L_BULK_PUT: u8 = 17;
+/// a full traversal (several iterator flavours) compared with the model
+pub const L_ITER_CHECK: u8 = 18;
 
 pub const H_FIRST: u8 = 0;
 pub const H_CLONE: u8 = 1;
@@ -243,6 +261,7 @@ impl BCfg {
             L_DROP_DB => "drop the database handle (map handles stay)".into(),
             L_KEEP_ITER => format!("start an iterator on map {}, take one item, keep it alive", m.name),
             L_FILL => format!("read_fill_buffer() {}", via(l.handle)),
+            L_ITER_CHECK => format!("traverse (iter, keys, values, into_iter, iter with len() between the steps) and compare {}", via(l.handle)),
             L_BULK_PUT => format!("bulk_put of all {} keys (value sizes rotated from #{}) {}", m.keys.len(), l.val, via(l.handle)),
             40 => "flush() [map m] with its first write refused by the operating system (ENOSPC), then the condition is lifted".to_string(),
             _ => format!("letter {:?}", l),
@@ -449,6 +468,7 @@ impl BState {
         let val = if l.kind == L_PUT { cfg.value(l.map, l.key, l.val) } else { Vec::new() };
         let expect = self.models[mi].get(&key).cloned();
         let n = self.models[mi].len() as u64;
+        let model_now = if l.kind == L_ITER_CHECK { self.models[mi].clone() } else { BTreeMap::new() };
         let h = match self.handle(cfg, mi, l.handle) {
             Ok(h) => h,
             Err(e) if e == "SKIP" => return None,
@@ -519,6 +539,11 @@ impl BState {
                 };
                 if let Some(f) = r.failed() {
                     return bad(format!("{} {f}", cfg.label(l)));
+                }
+            }
+            L_ITER_CHECK => {
+                if let Some(why) = h.iter_check(&model_now) {
+                    return bad(format!("{}: {why}", cfg.label(l)));
                 }
             }
             L_KEEP_ITER => {
